@@ -504,4 +504,12 @@ theorem eq_ok_triple {α β γ} [Inhabited α] [Inhabited β] [Inhabited γ] {m 
   | ok a => rfl
   | error e => cases h
 
+theorem srv?_some_mem_ids {c : Cell} {sid : Nat} {s : Srv} (h : c.srv? sid = some s) :
+    sid ∈ c.srvs.map (·.id) := by
+  unfold Cell.srv? at h
+  have hm := List.mem_of_find?_eq_some h
+  have hp := List.find?_some h
+  simp only [decide_eq_true_eq] at hp
+  exact List.mem_map.mpr ⟨s, hm, hp⟩
+
 end TmVerif.Master
